@@ -557,9 +557,9 @@ Definition ex_suite : list testcase :=
          s_asserts := [ {| a_kind := AObject; a_src := Var 1; a_vals := [Glob 7]; a_holds := true |};
                         {| a_kind := AIsInstance Alias; a_src := Var 1; a_vals := []; a_holds := true |} ] |} ];
     [ {| s_id := 0; s_bind := []; s_uses := [Alias; Builtin 9];
-         s_exc := Some {| e_name := Glob 3; e_mod := Some 5%N |}; s_expected := true; s_asserts := [] |};
+         s_exc := Some {| e_name := Glob 3; e_mod := Some 5%N; e_base := false |}; s_expected := true; s_asserts := [] |};
       {| s_id := 1; s_bind := []; s_uses := [Alias];
-         s_exc := Some {| e_name := Builtin 4; e_mod := None |}; s_expected := false; s_asserts := [] |} ] ].
+         s_exc := Some {| e_name := Builtin 4; e_mod := None; e_base := true |}; s_expected := false; s_asserts := [] |} ] ].
 
 Example ex_wf : wf_suite ex_cfg ex_suite = true.
 Proof. reflexivity. Qed.
@@ -589,3 +589,32 @@ Lemma body_preserves c tc :
   stmts_of (f_body (func_of c tc)) = tc /\
   asserts_of (f_body (func_of c tc)) = flat_map (fun s => filter rendered (s_asserts s)) tc.
 Proof. split; [apply body_stmts|apply body_asserts]. Qed.
+
+
+(* Every exception kind is handled alike, in particular BaseExceptions that are not Exceptions
+   (SystemExit, KeyboardInterrupt, GeneratorExit, user subclasses): the statement is wrapped if
+   handled, otherwise the function is marked; it is never emitted bare in an unmarked function. *)
+Lemma base_exception_covered c tc s e :
+  In s tc -> s_exc s = Some e -> e_base e = true ->
+  (no_xfail c = true \/ s_expected s = true -> In (IStmt (Some (e_name e)) s) (f_body (func_of c tc))) /\
+  (no_xfail c = false /\ s_expected s = false -> f_xfail (func_of c tc) = true) /\
+  (In (IStmt None s) (f_body (func_of c tc)) -> f_xfail (func_of c tc) = true).
+Proof.
+  intros Hs He _. split; [|split].
+  - intro Hh. apply raising_is_wrapped; assumption.
+  - intros [Hn Hx]. simpl. apply existsb_exists. exists s. split; [exact Hs|].
+    apply unexpected_iff. exists e. auto.
+  - intro Hin. destruct (raises_wraps_only_raising c tc None s Hin) as [_ [_ Hnone]].
+    destruct (Hnone eq_refl) as [Hno|[Hn Hx]]; [congruence|].
+    simpl. apply existsb_exists. exists s. split; [exact Hs|].
+    apply unexpected_iff. exists e. auto.
+Qed.
+
+Example ex_system_exit :
+  let s := {| s_id := 0; s_bind := []; s_uses := [Alias];
+              s_exc := Some {| e_name := Builtin 20; e_mod := None; e_base := true |};
+              s_expected := false; s_asserts := [] |} in
+  f_xfail (func_of ex_cfg [s]) = true /\
+  f_body (func_of {| no_xfail := true; seed := false; publics := [] |} [s]) = [IStmt (Some (Builtin 20)) s] /\
+  pytest_report (func_of ex_cfg [s]) = XFailed.
+Proof. repeat split. Qed.
